@@ -430,8 +430,9 @@ async def _run(case):
                     res = await rails.generate_async(messages=messages + [{"role": "user", "content": t["user"]}])
                     rep = _canon_reply(res)
                     messages.append({"role": "user", "content": t["user"]})
-                    if rep["role"] == "assistant":
-                        messages.append({"role": "assistant", "content": rep["content"]})
+                    # the client keeps whatever `generate` returned in its history (as tests/utils.py::TestChat
+                    # does), also a {"role": "exception"} reply: the events-history cache is keyed by it
+                    messages.append(dict(res) if isinstance(res, dict) else {"role": "assistant", "content": rep["content"]})
                 else:
                     res = await rails.generate_async(messages=[{"role": "user", "content": t["user"]}], state=state)
                     rep = _canon_reply(res)
